@@ -12,8 +12,8 @@ ID = "C16"
 LEVEL = "exploration"
 EXHAUSTIVE = True
 RULE = ("exhaustive: every n in 0..65535 through the encoder-side conversion (shortest big-endian base-16 digits over the documented "
-        "symbol order) and back through the decoder-side conversion; every triple over {16 index symbols, 4 non-index symbols, "
-        "missing} through the decoder-side conversion (21^3 = 9261); at API level every Q < 4096: a crafted ring string and a crafted "
+        "symbol order) and back through the decoder-side conversion; every triple over {16 index symbols, 20 non-index symbols, "
+        "missing} through the decoder-side conversion (16 index + 20 non-index symbols incl. near misses such as [/O], [=Ring1], [Branch3], [CH0], + missing: 37^3 = 50653); at API level every Q < 4096: a crafted ring string and a crafted "
         "branch string whose decoded ring size / branch length must be Q+1 (Q symbols of length 1, 2 and 3), ring / branch symbols whose index symbols straddle the end of an enclosing branch (judged by the reference derivation), and for every ring size / "
         "branch length up to 4096 a macrocycle / long-branch SMILES whose encoding must carry the shortest digits of Q. Sampled: "
         "larger n up to 16^6. distinct = distinct case; non-trivial = n >= 16 or a triple with a non-index symbol")
@@ -23,12 +23,16 @@ ASSUMPTIONS = ["the documented order is [C]=0, [Ring1]=1, [Ring2]=2, [Branch1]=3
                "disappear the API-level part still decides the property"]
 
 
+NON_INDEX = ['[F]', '[Xx]', '[=O]', '[epsilon]', '[/O]', '[\\N]', '[/C]', '[\\S]', '[/P]', '[#N]', '[=S]', '[=P]', '[#P]', '[=Ring1]',
+             '[/Ring2]', '[Ring3]', '[Branch3]', '[=Branch3]', '[CH0]', '[N+1]']
+
+
 def shards(tier):
     return 16
 
 
 def floors(tier):
-    return {"helper_n": 65536, "helper_triples": 9261, "api_ring_Q": 4096, "api_branch_Q": 4096, "api_truncated_index": 3000, "api_index_across_branch_end": 5000, "api_encoder_ring": 150,
+    return {"helper_n": 65536, "helper_triples": 50653, "api_ring_Q": 4096, "api_branch_Q": 4096, "api_truncated_index": 3000, "api_index_across_branch_end": 5000, "api_encoder_ring": 150,
             "api_encoder_branch": 150}
 
 
@@ -73,7 +77,9 @@ def run(ctx):
             r = call_guard(lambda: to_sym(-1))
             if r[0] == "ok":
                 ctx.finding("negative-index-accepted", {"n": -1}, repr(r))
-        pool = INDEX_SYMBOLS + ['[F]', '[Xx]', '[=O]', '[epsilon]', None]
+        # non-index symbols: unrelated ones and near misses of the sixteen (another bond prefix, a stereo mark, another
+        # index length, a charge or H count on an index atom)
+        pool = INDEX_SYMBOLS + NON_INDEX + [None]
         i = 0
         for t in itertools.product(pool, repeat=3):
             i += 1
